@@ -84,25 +84,25 @@ Exps(dim, q) == [1..dim -> 0..q]
 RECURSIVE ESum(_, _)
 ESum(e, k) == IF k = 0 THEN 0 ELSE e[k] + ESum(e, k - 1)
 TotalDeg(e) == ESum(e, Len(e))
-PConst(dim, q, c) == [e \in Exps(dim, q) |-> IF TotalDeg(e) = 0 THEN c ELSE 0]
-PVar(dim, q, a) == [e \in Exps(dim, q) |-> IF TotalDeg(e) = 1 /\ e[a] = 1 THEN 1 ELSE 0]
-PAdd(p, r) == [e \in DOMAIN p |-> p[e] + r[e]]
-PScale(c, p) == [e \in DOMAIN p |-> c * p[e]]
+PConst(dim, q, c) == TLCEval([e \in Exps(dim, q) |-> IF TotalDeg(e) = 0 THEN c ELSE 0])
+PVar(dim, q, a) == TLCEval([e \in Exps(dim, q) |-> IF TotalDeg(e) = 1 /\ e[a] = 1 THEN 1 ELSE 0])
+PAdd(p, r) == TLCEval([e \in DOMAIN p |-> p[e] + r[e]])
+PScale(c, p) == TLCEval([e \in DOMAIN p |-> c * p[e]])
 PSub(p, r) == PAdd(p, PScale(-1, r))
 \* product (the factors must be such that the product stays inside the exponent box; PMulFits says so)
 PMul(p, r) ==
-  [e \in DOMAIN p |-> MapThenSumSet(LAMBDA a : p[a] * r[[i \in DOMAIN e |-> e[i] - a[i]]],
-                                    {a \in DOMAIN p : \A i \in DOMAIN e : a[i] <= e[i]})]
+  TLCEval([e \in DOMAIN p |-> MapThenSumSet(LAMBDA a : p[a] * r[[i \in DOMAIN e |-> e[i] - a[i]]],
+                                            {a \in DOMAIN p : \A i \in DOMAIN e : a[i] <= e[i]})])
 PDeg(p, v) == LET S == {e[v] : e \in {x \in DOMAIN p : p[x] # 0}} IN IF S = {} THEN 0 ELSE Max(S)
 PMulFits(p, r, q) == \A v \in 1..Len(CHOOSE e \in DOMAIN p : TRUE) : PDeg(p, v) + PDeg(r, v) <= q
 \* formal partial derivative with respect to variable v
-PDiff(p, v, q) == [e \in DOMAIN p |-> IF e[v] = q THEN 0 ELSE (e[v] + 1) * p[[e EXCEPT ![v] = e[v] + 1]]]
+PDiff(p, v, q) == TLCEval([e \in DOMAIN p |-> IF e[v] = q THEN 0 ELSE (e[v] + 1) * p[[e EXCEPT ![v] = e[v] + 1]]])
 \* numerator of p(n / S) over S^D, D >= total degree of p
 RECURSIVE MonoAt(_, _, _)
 MonoAt(e, n, k) == IF k = 0 THEN 1 ELSE IPow(n[k], e[k]) * MonoAt(e, n, k - 1)
 PEval(p, n, S, D) == MapThenSumSet(LAMBDA e : IF p[e] = 0 THEN 0 ELSE p[e] * MonoAt(e, n, Len(e)) * IPow(S, D - TotalDeg(e)), DOMAIN p)
 \* tensor product of 1-D polynomials given as coefficient tuples f[a] = <<c0, c1, .., cq>>
-PTensor(dim, q, f) == [e \in Exps(dim, q) |-> LET c(a) == f[a][e[a] + 1] IN c(1) * (IF dim >= 2 THEN c(2) ELSE 1) * (IF dim >= 3 THEN c(3) ELSE 1)]
+PTensor(dim, q, f) == TLCEval([e \in Exps(dim, q) |-> LET c(a) == f[a][e[a] + 1] IN c(1) * (IF dim >= 2 THEN c(2) ELSE 1) * (IF dim >= 3 THEN c(3) ELSE 1)])
 
 \* ---- reference vertices, barycentres ------------------------------------------------------------------------------------------
 RefVertex(fam, dim, v) ==
@@ -113,9 +113,9 @@ PointScale(fam) == IF fam = "hypercube" THEN 4 ELSE 8
 VSum(P, W) == [a \in 1..Len(P[1]) |-> MapThenSumSet(LAMBDA v : P[v + 1][a], W)]
 \* barycentre of the local vertex set W (0-based local vertices) for vertex coordinates P (tuple over local vertices, integer points);
 \* Divisible is the side condition that the result is an integer point
-BaryOf(P, W) == LET s == VSum(P, W)  c == Cardinality(W) IN [a \in 1..Len(s) |-> s[a] \div c]
-BaryDivisible(P, W) == LET s == VSum(P, W)  c == Cardinality(W) IN \A a \in 1..Len(s) : s[a] % c = 0
-RefVerts(fam, dim) == [k \in 1..NVerts(fam, dim) |-> [a \in 1..dim |-> PointScale(fam) * RefVertex(fam, dim, k - 1)[a]]]
+BaryOf(P, W) == LET s == TLCEval(VSum(P, W))  c == Cardinality(W) IN TLCEval([a \in 1..Len(s) |-> s[a] \div c])
+BaryDivisible(P, W) == LET s == TLCEval(VSum(P, W))  c == Cardinality(W) IN \A a \in 1..Len(s) : s[a] % c = 0
+RefVerts(fam, dim) == TLCEval([k \in 1..NVerts(fam, dim) |-> TLCEval([a \in 1..dim |-> PointScale(fam) * RefVertex(fam, dim, k - 1)[a]])])
 LFaceSet(fam, dim, d, k) == TRange(FaceVerts(fam, dim, d, k))
 
 \* ---- (c) exact bases ------------------------------------------------------------------------------------------------------------
@@ -185,10 +185,10 @@ FamilyTable(el, fam, dim) ==
       q == BasisQ(el, fam)
   IN [el |-> el, fam |-> fam, dim |-> dim, sig |-> sig, layout |-> lay, q |-> q,
       den |-> BasisDen(el, fam, dim), D |-> BasisD(el, fam, dim), S |-> PointScale(fam),
-      basis |-> [j \in 1..Len(lay) |-> BasisPoly(el, fam, dim, lay[j])],
-      nodes |-> IF HasNodal(el, fam, dim) THEN [j \in 1..Len(lay) |-> NodeSets(el, fam, dim, lay[j])] ELSE << >>]
-GradOf(T, j) == [a \in 1..T.dim |-> PDiff(T.basis[j], a, T.q)]
-HessOf(T, j) == [a \in 1..T.dim |-> [b \in 1..T.dim |-> PDiff(PDiff(T.basis[j], a, T.q), b, T.q)]]
+      basis |-> TLCEval([j \in 1..Len(lay) |-> BasisPoly(el, fam, dim, lay[j])]),
+      nodes |-> IF HasNodal(el, fam, dim) THEN TLCEval([j \in 1..Len(lay) |-> TLCEval(NodeSets(el, fam, dim, lay[j]))]) ELSE << >>]
+GradOf(T, j) == TLCEval([a \in 1..T.dim |-> PDiff(T.basis[j], a, T.q)])
+HessOf(T, j) == TLCEval([a \in 1..T.dim |-> TLCEval([b \in 1..T.dim |-> PDiff(PDiff(T.basis[j], a, T.q), b, T.q)])])
 
 \* ---- properties of the tables themselves (model checked by RefElementSanity) --------------------------------------------------------------
 \* duality N_i(phi_j) = delta_ij in exact arithmetic
